@@ -433,8 +433,9 @@ def pwl_calibration_fn(
       ) * (keypoint_output_max - keypoint_output_min)
       kernel_outputs = kernel_outputs[:, :, :-1]
     else:
-      missing_output = tf.fill(
-          kernel_outputs[:, :, -1].shape, missing_output_value
+      # zeros_like keeps an unknown batch size and the dtype of the outputs.
+      missing_output = (
+          tf.zeros_like(kernel_outputs[:, :, -1]) + missing_output_value
       )
 
   if monotonicity == "none":
